@@ -102,6 +102,12 @@ class Check:
         os.environ["VERIF_SEED"] = str(self.args.seed)
         self.seed = self.args.seed
         self.t0 = time.time()
+        import glob
+        for f in glob.glob(os.path.join(ROOT, "replays", "%s_*.json" % pid)):
+            try:
+                os.remove(f)
+            except OSError:
+                pass
         self.outcomes = []
         self.funcs = set()
         self.stats = collections.Counter()
